@@ -25,6 +25,7 @@ REFUTED_PATTERNS = [
     (r"^recursive call.*decreases", "decreases"),
     (r"^unreachable", "unreachable"),
     (r"^possible (index|slice)", "bounds"),
+    (r"^precondition not met", "bounds"),
     (r"^constructed value may fail to meet its declared type invariant", "type-invariant"),
     (r"^cannot show .* (recommend|invariant)", "invariant"),
     (r"^failed to prove", "assert"),
